@@ -22,6 +22,9 @@ use tinylfu_cached::cache::put_or_update::PutOrUpdateRequestBuilder;
 use tinylfu_cached::cache::verif;
 
 pub type Cache = CacheD<u32, u64>;
+/// simulated clocks beyond this (year 9999) are refused by `Advance`: the harness's own clock must
+/// stay representable, whatever time-to-live values the scenario plays with
+pub const MAX_CLOCK_SECS: u64 = 253_402_300_800;
 pub type Ack = Arc<CommandAcknowledgement>;
 
 #[derive(Clone)]
@@ -61,8 +64,20 @@ pub struct RunState {
     global_slots: Vec<(AckId, Ack)>,
 }
 
+pub struct PanicInfo {
+    pub message: String,
+    pub file: String,
+    pub line: u32,
+    pub task: Option<usize>,
+    pub role: String,
+}
+
 thread_local! {
+    /// the first panic of the current run, recorded by the process-wide panic hook
+    pub static PANIC: RefCell<Option<PanicInfo>> = RefCell::new(None);
     static RUN: RefCell<RunState> = RefCell::new(RunState::default());
+    /// set while a call is running whose documented-precondition panic the harness catches
+    pub static PRECONDITION_GUARD: std::cell::Cell<bool> = std::cell::Cell::new(false);
 }
 
 pub fn log(item: Item) -> u64 {
@@ -383,10 +398,37 @@ pub fn exec_op(cache: &Cache, ctx: &mut ThreadCtx, i: usize, op: &Op, shards: us
             if *remove_ttl {
                 b = b.remove_time_to_live();
             }
-            let r = cache.put_or_update(b.build());
-            let ok = r.is_ok();
-            write_result = Some((r.map_err(|_| ()), *wait));
-            Res::Write { ok }
+            let req = b.build();
+            if val.is_none() {
+                // Documented precondition: a request without a value needs the key to be present.
+                // In a concurrent run nobody can know that; the call asserts it before touching
+                // anything (no lock held), so a refusal is caught here and recorded as a no-op.
+                PRECONDITION_GUARD.with(|g| g.set(true));
+                let r = std::panic::catch_unwind(std::panic::AssertUnwindSafe(|| cache.put_or_update(req)));
+                PRECONDITION_GUARD.with(|g| g.set(false));
+                match r {
+                    Ok(r) => {
+                        let ok = r.is_ok();
+                        write_result = Some((r.map_err(|_| ()), *wait));
+                        Res::Write { ok }
+                    }
+                    Err(e) => {
+                        let msg = e.downcast_ref::<String>().cloned().or_else(|| e.downcast_ref::<&str>().map(|s| s.to_string())).unwrap_or_default();
+                        if msg.contains("PutOrUpdate has resulted in a put request") {
+                            PANIC.with(|p| *p.borrow_mut() = None);
+                            sim::probe("valueless_upsert_refused_key_absent");
+                            Res::Refused
+                        } else {
+                            std::panic::resume_unwind(e);
+                        }
+                    }
+                }
+            } else {
+                let r = cache.put_or_update(req);
+                let ok = r.is_ok();
+                write_result = Some((r.map_err(|_| ()), *wait));
+                Res::Write { ok }
+            }
         }
         Op::Delete { key, wait } => {
             let r = cache.delete(*key);
@@ -403,7 +445,9 @@ pub fn exec_op(cache: &Cache, ctx: &mut ThreadCtx, i: usize, op: &Op, shards: us
         Op::AwaitAll => Res::Unit,
         Op::Advance(d) => {
             let now = sim::now();
-            sim::set_now(now.checked_add(d.to_std()).unwrap_or(now));
+            // the simulated wall clock stays representable as a SystemTime (year 9999 at most)
+            let next = now.checked_add(d.to_std()).unwrap_or(now);
+            sim::set_now(if next.as_secs() > MAX_CLOCK_SECS { now } else { next });
             sim::probe("fault.clock_advance");
             Res::Unit
         }
@@ -627,6 +671,18 @@ pub fn body() {
             let (vals, _) = do_read(&cache, kind, &[k]);
             log(Item::FinalRead { kind, key: k, val: vals[0] });
         }
+    }
+    if sc.property == "C07" && sc.family == "CONC" && !RUN.with(|r| r.borrow().shutdown_called) {
+        // probe: a key that reads as absent at quiescence must not be refused as "already exists"
+        for k in 0..sc.cfg.keys {
+            if cache.get(&k).is_none() {
+                if let Ok(ack) = cache.put_with_weight(k, 0xFFFF_0000_0000_0000 | k as u64, 1) {
+                    let st = St::from(shuttle::future::block_on(ack.handle()));
+                    log(Item::FinalPut { key: k, st });
+                }
+            }
+        }
+        sim::await_idle(Role::Worker);
     }
     // the agreement reads may have handed buffers over: let the consumer drain them
     sim::await_idle(Role::Consumer);
